@@ -9,7 +9,7 @@ git apply "$P" 2>/dev/null || git apply -3 "$P" || { echo "PATCH-DOES-NOT-APPLY"
 for id in $IDS; do
     out=$(/verif/check "$id" "${TIER:-quick}" 2>&1); rc=$?
     echo "== $id rc=$rc"
-    echo "$out" | grep -E "VIOLATION|detail:|HARNESS|KNOWN" | head -6
+    echo "$out" | grep -aE "VIOLATION|detail:|HARNESS|KNOWN" | head -6
 done
 git -C /repo checkout -q HEAD -- .
 git -C /repo reset -q
